@@ -1,4 +1,5 @@
 import Pi2.Proof
+import Pi2.CountDet
 /-!
 # C18 — output is a deterministic function of the input (the part a pure model can carry)
 
@@ -7,6 +8,13 @@ way the suggestion set computed by the counting pre-pass enters the serialisatio
 membership tests (`p in self._patterns_for_memoization`), so neither the iteration order of that set
 nor the hash seed can influence the bytes.  Process-level nondeterminism (hash seeds, state leaking
 between serialisations) is decided by the multi-process run of the check; see DESIGN.md C18.
+
+The counting pre-pass itself (`CountingInterpreter`, the only code on the `--optimize` path that ITERATES sets) is translated
+statement by statement into `Pi2/Gen/PyCount.lean` (`vlib/transcount.py`) with the iteration order of every set as a
+parameter (an arbitrary permutation per iteration); `Pi2/CountDet.lean` proves that this parameter does not reach the
+result.  Keys of the usage dictionary: an abstract type `K` with decidable equality (the pattern objects up to the
+equality CPython's `dict` implements: equal hash and `==`, i.e. structural equality of the frozen dataclasses); `repr`
+maps a key to the model pattern it denotes.
 -/
 set_option linter.unusedVariables false
 namespace C18
@@ -27,5 +35,87 @@ theorem memo_set_order_irrelevant (S S' : List NPat) (h : S.Perm S') (p : NPat) 
 theorem serialisation_is_a_function_of_the_module (cfg : Cfg) (n : Nat) (m : PModule) :
     ∀ r₁ r₂, PModule.executeFull cfg n m = r₁ → PModule.executeFull cfg n m = r₂ → r₁ = r₂ :=
   fun _ _ h1 h2 => h1.symm.trans h2
+
+/-! ## the counting pre-pass -/
+open CountSup Gen.PyCount
+
+/-- every statement of `CountingInterpreter` is covered by the translator -/
+theorem counting_text_translated : Gen.PyCount.translated = true := CountDet.translated
+
+/-- the suggestion set `finalize` returns — and the whole final state — is the same for ANY two choices of the iteration
+orders of the sets `dependencies` and `requires_updating` (any permutation, a new one for every iteration), in every
+state the recording phase can reach -/
+theorem memo_suggestions_independent_of_set_order {K : Type} [DecidableEq K] [PyPattern K] {σ : Self K}
+    (hσ : CountDet.Reachable σ) (o₁ o₂ : Orders K) (h₁ : o₁.Valid) (h₂ : o₂.Valid) (t : Nat) :
+    finalize o₁ t σ = finalize o₂ t σ :=
+  CountDet.finalize_order_independent_reachable hσ o₁ o₂ h₁ h₂ t
+
+theorem patternF_memo_congr (S S' : List NPat) (h : ∀ p, S.any (NPat.seq p) = S'.any (NPat.seq p)) :
+    ∀ n, (∀ s p acc, patternF { memo := some S } n s p acc = patternF { memo := some S' } n s p acc) ∧
+         (∀ s ps acc, patternF.patternListF { memo := some S } n s ps acc = patternF.patternListF { memo := some S' } n s ps acc) := by
+  intro n
+  induction n with
+  | zero =>
+    constructor
+    · intro s p acc; simp only [patternF]
+    · intro s ps acc; simp only [patternF.patternListF]
+  | succ n ih =>
+    obtain ⟨ihP, ihL⟩ := ih
+    constructor
+    · intro s p acc
+      simp only [patternF, ihP, ihL, h]
+    · intro s ps acc
+      cases ps with
+      | nil => simp only [patternF.patternListF]
+      | cons p r => simp only [patternF.patternListF, ihP, ihL]
+
+theorem runF_memo_congr (S S' : List NPat) (h : ∀ p, S.any (NPat.seq p) = S'.any (NPat.seq p)) (ax : List NPat) :
+    ∀ n s pf acc, Pf.runF { memo := some S } ax n s pf acc = Pf.runF { memo := some S' } ax n s pf acc := by
+  intro n
+  induction n with
+  | zero => intro s pf acc; simp only [Pf.runF]
+  | succ n ih =>
+    intro s pf acc
+    cases pf <;> simp only [Pf.runF, ih, (patternF_memo_congr S S' h n).2]
+
+/-- the serialisation sees the memoisation set through membership tests only -/
+theorem executeFull_memo_congr (S S' : List NPat) (h : ∀ p, S.any (NPat.seq p) = S'.any (NPat.seq p)) (n : Nat) (m : PModule) :
+    PModule.executeFull { memo := some S } n m = PModule.executeFull { memo := some S' } n m := by
+  have hpub : ∀ (l : List NPat) n s acc c, PModule.executeFull.pub { memo := some S } n s acc c l =
+      PModule.executeFull.pub { memo := some S' } n s acc c l := by
+    intro l
+    induction l with
+    | nil => intro n s acc c; simp only [PModule.executeFull.pub]
+    | cons a r ih => intro n s acc c; simp only [PModule.executeFull.pub, (patternF_memo_congr S S' h n).1, ih]
+  have hproofs : ∀ (l : List Pf) n s acc, PModule.executeFull.proofs { memo := some S } m n s acc l =
+      PModule.executeFull.proofs { memo := some S' } m n s acc l := by
+    intro l
+    induction l with
+    | nil => intro n s acc; simp only [PModule.executeFull.proofs]
+    | cons a r ih => intro n s acc; simp only [PModule.executeFull.proofs, runF_memo_congr S S' h, ih]
+  simp only [PModule.executeFull, hpub, hproofs]
+
+/-- **the serialisation under `--optimize` does not depend on any set iteration order**: run the counting pre-pass twice on
+the same reachable state with ANY two order oracles; hand the two suggestion sets to `MemoizingInterpreter` in ANY listing
+(`L₁`, `L₂`: the set object is copied by `set(..)` and only asked `p in ..`); then either both `finalize` calls raise, or
+both succeed and the serialisation (the calls the serializer receives, hence the bytes) of every module is the same. -/
+theorem optimized_serialisation_independent_of_set_order {K : Type} [DecidableEq K] [PyPattern K] (repr : K → NPat)
+    {σ : Self K} (hσ : CountDet.Reachable σ) (o₁ o₂ : Orders K) (h₁ : o₁.Valid) (h₂ : o₂.Valid) (t : Nat) :
+    (finalize o₁ t σ = none ∧ finalize o₂ t σ = none) ∨
+    ∃ (S : PySet K) (σ' : Self K) (t' : Nat), finalize o₁ t σ = some (S, σ', t') ∧ finalize o₂ t σ = some (S, σ', t') ∧
+      ∀ (L₁ L₂ : List NPat), L₁.Perm (S.map repr) → L₂.Perm (S.map repr) →
+        (∀ p, L₁.any (NPat.seq p) = L₂.any (NPat.seq p)) ∧
+        ∀ n m, PModule.executeFull { memo := some L₁ } n m = PModule.executeFull { memo := some L₂ } n m := by
+  have heq := memo_suggestions_independent_of_set_order hσ o₁ o₂ h₁ h₂ t
+  cases hf : finalize o₁ t σ with
+  | none => left; exact ⟨rfl, by rw [← heq, hf]⟩
+  | some r =>
+    obtain ⟨S, σ', t'⟩ := r
+    right
+    refine ⟨S, σ', t', rfl, by rw [← heq, hf], ?_⟩
+    intro L₁ L₂ hL₁ hL₂
+    have hm : ∀ p, L₁.any (NPat.seq p) = L₂.any (NPat.seq p) :=
+      fun p => memo_set_order_irrelevant L₁ L₂ (hL₁.trans hL₂.symm) p
+    exact ⟨hm, fun n m => executeFull_memo_congr L₁ L₂ hm n m⟩
 
 end C18
